@@ -37,4 +37,8 @@ CHECKS = {
         technique="property-based testing: Hypothesis-generated operator descriptors x 6 accelerators through the public block-config query; every offered configuration checked by an independent SHRAM validity predicate on the registers decoded from the stream the generator emits for it (acceptance + round trip)",
         text="For thousands of generated operators the query's configurations are checked for micro-block multiples and the maximum block, then given back to npu_generate_register_command_stream (must be accepted); IB_END/IB_START2/AB_START/ACC_FORMAT are decoded from the emitted words and must describe ordered, non-overlapping partitions inside the bank count that can double-buffer the IFM block (own receptive-field formula) and the accumulators at the pinned bank granules.",
         note="trusted base: SHRAM description pinned in lib/hw.py (bank counts, granule table, LUT placement, Conv1D rule), lib/csdec.py"),
+    "C04": dict(
+        technique="property-based testing: Hypothesis-generated operation histories over a shared buffer pool and producer/consumer chains; invariant over the emitted stream under an explicit execution model (two queues, bounded outstanding counts, waits, block-job dependency) with exact byte footprints; same invariant over streams of generated compiled networks",
+        text="The emitted words are decoded and replayed on a model of the kernel and DMA queues: for every operation issued, every operation that may still be in flight (given the KERNEL_WAIT/DMA_WAIT actually present and the outstanding limits) must be free of RAW/WAR/WAW byte overlap across queues, and the programmed BLOCKDEP must not let a consumer job start while a producer block job it reads from is unfinished.",
+        note="trusted base: execution model H7-H9 (DESIGN.md §4), lib/footprint.py, lib/hazard.py, lib/csdec.py; job traversal order as documented in the repository, not a silicon trace"),
 }
